@@ -94,6 +94,7 @@ Fixpoint elem_src_ok_b (syn : syntax) (maxTag : Z) (depth : nat) (e : melem) {st
   | MEnum ed => enum_src_ok_b syn ed
   | MExtend _ els => negb (match els with [] => true | _ => false end) && forallb (member_ok msgset_max) els
   | MExtensions rs => ranges_ok_b 1 maxTag rs
+  | MExtensionsOpt rs _ => ranges_ok_b 1 maxTag rs
   | MReserved rs => ranges_ok_b 1 maxTag rs
   | MReservedNames strs idents => reserved_names_ok_b syn strs idents
   | MMsgSet _ => true
